@@ -85,6 +85,20 @@ def rule_overlap(ctx):
     gflow = Flow(g)
     roi = gflow.resolve(c[0].args[0], at=c[0], depth=1, stop=tuple(g.params))
     ok_roi = isinstance(roi, ast.Tuple) and [norm(e) for e in roi.elts] == [g.params[0], g.params[1], g.params[2], g.params[3]]
+    if not ok_roi and isinstance(roi, ast.Tuple) and len(roi.elts) == 4:
+        # an edge kept under another name after its normalisation: it derives from the parameter of its position and from no other
+        def params_behind(e_, at_, seen_=()):
+            out_ = set()
+            for n_ in ast.walk(e_):
+                if isinstance(n_, ast.Name) and isinstance(n_.ctx, ast.Load):
+                    ds_ = gflow.defs(n_.id, at_)
+                    if "param" in ds_ and n_.id in g.params:
+                        out_.add(n_.id)
+                    for d_ in ds_:
+                        if d_ != "param" and isinstance(d_, ast.Assign) and id(d_) not in seen_:
+                            out_ |= params_behind(d_.value, d_, seen_ + (id(d_),))
+            return out_
+        ok_roi = all(params_behind(e_, enclosing_stmt(c[0])) == {g.params[i_]} for i_, e_ in enumerate(roi.elts))
     # the second rectangle: elements 1..4 of the table row, in table order
     tb = gflow.resolve(c[0].args[1], at=c[0], depth=1)
     row = None          # how the row variable is bound: the target of the loop / comprehension over SRTM30._tiles
@@ -105,9 +119,10 @@ def rule_overlap(ctx):
                     pos[e_.id] = i_
     if isinstance(row, ast.Name):
         un = [st for st in walk_no_nested(g.node) if isinstance(st, ast.Assign) and isinstance(st.targets[0], (ast.Tuple, ast.List)) and norm(st.value) == row.id]
-        if len(un) != 1:
-            raise AnalysisError("get_tiles: the table row is not unpacked once")
-        bind(un[0].targets[0])
+        if len(un) > 1:
+            raise AnalysisError("get_tiles: the table row is unpacked more than once")
+        if un:
+            bind(un[0].targets[0])
     else:
         bind(row)
     ok_tb = False
@@ -358,10 +373,11 @@ def rule_orient(ctx):
            "a tile whose destination mask is empty is skipped BEFORE it is fetched: no download (and no failure offline) for a neighbour that contributes nothing",
            node=gtile[0], func=f, witness=None if guarded_fetch else {"cache": "only W020N40", "elevation": "(-10, 10, -9, 11)", "downloads": "w020s10"})
     # snapped bounds and inputs of the loop
-    bv = [norm(flow.resolve(a_, at=gt[0], depth=6, stop=(LD, OD))).replace(" ", "") for a_ in gt_args]
+    from ..canon import canon_text as _ct
+    bv = [_ct(flow.resolve(a_, at=gt[0], depth=6, stop=(LD, OD))).replace(" ", "") for a_ in gt_args]
     want_b = ["np.min(%s)-0.5*SRTM30._dlat" % LD, "np.min(%s)-0.5*SRTM30._dlon" % OD, "np.max(%s)+0.5*SRTM30._dlat" % LD, "np.max(%s)+0.5*SRTM30._dlon" % OD]
     bdef = [d_ for d_ in flow.defs(blk, lp) if d_ != "param" and not any(d_ is x for x in ast.walk(lp))]
-    okp = bv == want_b and len(bdef) == 1 and norm(bdef[0].value).replace(" ", "") == "np.zeros(%s.shape+%s.shape)" % (LD, OD)
+    okp = bv == [_ct(w_).replace(" ", "") for w_ in want_b] and len(bdef) == 1 and _ct(bdef[0].value).replace(" ", "") == _ct("np.zeros(%s.shape+%s.shape)" % (LD, OD)).replace(" ", "")
     ctx.ob("SRTM30.elevation.block", okp, "block bounds: %s; block = %s" % (bv, norm(bdef[0].value) if len(bdef) == 1 else None),
            "block bounds = outer cell edges of the native grid (centre -/+ half a cell); block of shape lats x lons, zero filled", node=gt[0], func=f)
 
@@ -479,6 +495,22 @@ def rule_lonnorm(ctx):
         r = Rat({"lon_min": x, "lon_max": x, "lat_min": Fraction(0), "lat_max": Fraction(1)})
         r.run(f.body, stop=loop[0])
         w, e = r.env.get("lon_min"), r.env.get("lon_max")
+        # what the overlap test is actually handed: (lat_min, WEST, lat_max, EAST) - the normalised values may live under other names
+        oc = calls_in(loop[0], "_do_overlap")
+        rect = None
+        for a_ in (oc[0].args if oc else []):
+            a2 = a_
+            if isinstance(a2, ast.Name) and a2.id in r.env and isinstance(r.env[a2.id], tuple) and len(r.env[a2.id]) == 4:
+                rect = r.env[a2.id]
+            elif isinstance(a2, (ast.Tuple, ast.List)) and len(a2.elts) == 4 and all(not isinstance(x_, ast.Starred) for x_ in a2.elts):
+                try:
+                    rect = tuple(r.ev(x_) for x_ in a2.elts)
+                except Exception:
+                    rect = None
+            if rect is not None:
+                break
+        if rect is not None and rect[0] == 0 and rect[2] == 1:
+            w, e = rect[1], rect[3]
         if -180 <= x < 180 and w != x and bad_w is None:
             bad_w = {"lon_min": str(x), "normalised to": str(w)}
         if -180 < x <= 180 and e != x and bad_e is None:
